@@ -1175,7 +1175,9 @@ class RecordTensor(ShapedTensor):
         # reconstrain if required
         if size != self.__recordsz:
             with torch.no_grad():
-                self.align(0)
+                # only initialized storage has observations to keep in order
+                if not self._ignore(self.__data):
+                    self.align(0)
                 _ = ShapedTensor.reconstrain(self, 0, size)
 
     @property
@@ -1215,7 +1217,9 @@ class RecordTensor(ShapedTensor):
         # reconstrain if required
         if size != self.__recordsz:
             with torch.no_grad():
-                self.align(0)
+                # only initialized storage has observations to keep in order
+                if not self._ignore(self.__data):
+                    self.align(0)
                 _ = ShapedTensor.reconstrain(self, 0, size)
 
     @property
